@@ -62,3 +62,4 @@ for _p, _e in {"C01": ["decblk", "decobj"], "C02": ["decblk", "overhead"], "C04"
 for _p, _e in {"C11": ["kernels"], "C12": ["kernels", "slab"], "C09": ["linear", "plan", "slab", "kernels"]}.items():
     PROPS.setdefault(_p, {"thm_modules": [], "engines": [(e, "release") for e in _e]})
 PROPS.setdefault("C03", {"thm_modules": [], "engines": [("overhead", "release")], "level": "other"})
+PROPS.setdefault("C16", {"thm_modules": [], "engines": [("matrices", "release"), ("matrices", "debug")]})
